@@ -64,6 +64,12 @@ Comps == <<
                                             [type |-> "array", itemsList |-> <<SInt, SInt, SStr>>] >>, << >>),
   Comp("open-tuple-vs-items", << [type |-> "array", itemsList |-> <<SInt, SStr>>], SArr(SInt) >>, << >>),
   Comp("open-tuple-vs-items-min2", << [type |-> "array", itemsList |-> <<SInt, SStr>>, minItems |-> 2], SArr(SInt) >>, << >>),
+  (* the ip family of formats: the general one next to a specific one keeps the specific one *)
+  Comp("ipv6-and-ip", << [type |-> "string", format |-> "ipv6"], [type |-> "string", format |-> "ip"] >>, << >>),
+  Comp("ipv4-and-ip", << [type |-> "string", format |-> "ipv4"], [type |-> "string", format |-> "ip"] >>, << >>),
+  Comp("ipv4-and-ipv6", << [type |-> "string", format |-> "ipv4"], [type |-> "string", format |-> "ipv6"] >>, << >>),
+  Comp("uuid-and-plain", << [type |-> "string", format |-> "uuid"], SStr >>, << >>),
+  Comp("date-and-datetime", << [type |-> "string", format |-> "date"], [type |-> "string", format |-> "date-time"] >>, << >>),
   Comp("unsat-types", << SStr, SInt >>, << >>),
   Comp("unsat-enums", << EnumS(<<JS(<<"a">>)>>), EnumS(<<JS(<<"b">>)>>) >>, << >>),
   Comp("unsat-required-false", << SObj(Props1("a", SFalse), {}), SObj(Props1("a", SInt), {"a"}) >>, << >>),
